@@ -69,30 +69,51 @@ class Ph:
 
 
 class ProbeRep(Representation, RepresentationWithMutation, RepresentationWithCrossover):
-    def __init__(self, inner):
+    """delegates to a real representation; stamps phenotypes with tokens and (optionally) logs the lineage of every
+    genotype: how it came into being (create / mutate / crossover) and from which mapped parents"""
+
+    def __init__(self, inner, lineage_events=None):
         self.inner = inner
         self.tokens = itertools.count(1)
         self.grammar = getattr(inner, "grammar", None)
+        self.lineage_events = lineage_events
+        self._origin = {}      # id(genotype) -> (how, [parent genotypes]); genotypes are kept alive in _keep
+        self._tok = {}         # id(genotype) -> token of its (first) mapping
+        self._keep = []
+
+    def _born(self, g, how, parents):
+        self._keep.append(g)
+        self._origin[id(g)] = (how, list(parents))
+        return g
 
     def create_genotype(self, random, **kwargs):
-        return self.inner.create_genotype(random, **kwargs)
+        return self._born(self.inner.create_genotype(random, **kwargs), "create", [])
 
     def genotype_to_phenotype(self, genotype):
-        return Ph(next(self.tokens), self.inner.genotype_to_phenotype(genotype))
+        tok = next(self.tokens)
+        if self.lineage_events is not None:
+            how, parents = self._origin.get(id(genotype), ("unknown", []))
+            self.lineage_events.append({"e": "born", "tok": tok, "how": how,
+                                        "ptoks": [self._tok.get(id(p), 0) for p in parents]})
+        self._tok.setdefault(id(genotype), tok)
+        return Ph(tok, self.inner.genotype_to_phenotype(genotype))
 
     def mutate(self, random, genotype, **kwargs):
-        return self.inner.mutate(random, genotype, **kwargs)
+        return self._born(self.inner.mutate(random, genotype, **kwargs), "mutate", [genotype])
 
     def crossover(self, random, parent1, parent2, **kwargs):
-        return self.inner.crossover(random, parent1, parent2, **kwargs)
+        a, b = self.inner.crossover(random, parent1, parent2, **kwargs)
+        self._born(a, "crossover", [parent1, parent2])
+        self._born(b, "crossover", [parent1, parent2])
+        return a, b
 
 
-def make_rep(kind, random, grammar=None):
+def make_rep(kind, random, grammar=None, lineage_events=None):
     g = grammar or search_grammar()
     if kind == "tree":
-        return ProbeRep(TreeBasedRepresentation(g, MaxDepthDecider(random, g, 4)))
+        return ProbeRep(TreeBasedRepresentation(g, MaxDepthDecider(random, g, 4)), lineage_events)
     if kind == "ge":
-        return ProbeRep(GrammaticalEvolutionRepresentation(g, MaxDepthDecider(random, g, 4), gene_length=24))
+        return ProbeRep(GrammaticalEvolutionRepresentation(g, MaxDepthDecider(random, g, 4), gene_length=24), lineage_events)
     raise ValueError(kind)
 
 
